@@ -15,7 +15,7 @@ case "$WHAT" in
 esac
 cd /verif
 for p in $PROPS; do
-  out=$(bin/pqlint -property $p -tier quick -repo $S -verif /verif -out $O -noselftest 2>&1) || true
+  out=$(${PQLINT:-bin/pqlint} -property $p -tier quick -repo $S -verif /verif -out $O -noselftest 2>&1) || true
   if echo "$out" | grep -q "^VIOLATION"; then
     echo "$NAME: $p VIOLATION"
     echo "$out" | grep -E "^(VIOLATED|UNDECIDED|ANCHOR)" | cut -c1-330 | sed 's/^/    /'
